@@ -573,6 +573,9 @@ def _rep(a, b):
 
 
 WITNESSES = [
+    ("single-agent effects memoised and never reset", "batchie.data",
+     _rep("        try:\n            return create_single_treatment_effect_array(\n                sample_ids=self.sample_ids,",
+          "        if getattr(self, \"_ste\", None) is not None:\n            return self._ste\n        try:\n            self._ste = create_single_treatment_effect_array(\n                sample_ids=self.sample_ids,\n                treatment_ids=self.treatment_ids,\n                observation=self.observations,\n            )\n            return self._ste\n        except KeyError:\n            return None\n        try:\n            return create_single_treatment_effect_array(\n                sample_ids=self.sample_ids,"), ["R10"]),
     ("mse_variance over thetas", "batchie.models.main", _rep("((self.predictions - self.observations[:, None]) ** 2).mean(axis=1)\n        )", "((self.predictions - self.observations[:, None]) ** 2).mean(axis=0)\n        )"), ["R1"]),
     ("single effect = last observation", "batchie.data", _rep("single_effect = np.mean(single_treatment_observations[mask])", "single_effect = single_treatment_observations[mask][-1]"), ["R3"]),
     ("synergy sign flipped", "batchie.synergy", _rep("synergy = np.prod(single_effects) - observation", "synergy = observation - np.prod(single_effects)"), ["R4"]),
